@@ -35,7 +35,11 @@ func sampleOf(c *Case) interface{} {
 func try(test string, c *Case) error {
 	hx.Journal(test, c)
 	hx.ExtraAdd("machines", 1)
-	hx.Sample(test, sampleOf(c))
+	if c.Conc != nil {
+		hx.Sample(test, sampleConc(c))
+	} else {
+		hx.Sample(test, sampleOf(c))
+	}
 	return RunCase(c)
 }
 
@@ -85,6 +89,7 @@ type gen struct {
 	hs    []ghandle
 	last  int
 	avoid bool // FindingReadn is listed: steer Readn away from its signature
+	queue []Op // rest of a multi-step scenario (grow-then-read)
 }
 
 func clamp(v, lo, hi int64) int64 {
@@ -256,9 +261,77 @@ const maxFiles = 8
 var readKinds = []string{"cread", "read", "readat", "readn"}
 var writeKinds = []string{"cwrite", "write", "writeat", "written"}
 
+// growThenRead queues: [open a writable fid on the file] + append through it +
+// read through a fid that was open before, aimed at the part just added.
+// With an ORDWR reader and sameFid the append goes through the reading fid
+// itself (create/open -> writes -> read-back through one fid).
+func (g *gen) growThenRead(t *rapid.T) bool {
+	hr := g.pickHandle(t, false)
+	if hr < 0 {
+		return false
+	}
+	u := g.u
+	fi := g.hs[hr].file
+	l := g.lens[fi]
+	if l > 6*u {
+		return false
+	}
+	hw := -1
+	if canWrite(g.hs[hr].mode) && rapid.Bool().Draw(t, "grow_same_fid") {
+		hw = hr
+	} else {
+		for i, h := range g.hs {
+			if i != hr && h.file == fi && canWrite(h.mode) {
+				hw = i
+				break
+			}
+		}
+	}
+	var q []Op
+	if hw < 0 {
+		if len(g.hs) >= maxHandles {
+			return false
+		}
+		mode := rapid.SampledFrom([]uint8{oWRITE, oRDWR}).Draw(t, "grow_wmode")
+		g.hs = append(g.hs, ghandle{file: fi, mode: mode})
+		hw = len(g.hs) - 1
+		q = append(q, Op{Kind: "open", File: fi, Mode: mode})
+	}
+	add := rapid.SampledFrom([]int64{1, 2, u - 1, u, u + 1, 2*u + 1}).Draw(t, "grow_by")
+	wk := rapid.SampledFrom([]string{"written", "cwrite", "writeat"}).Draw(t, "grow_wkind")
+	n := add
+	if wk != "written" && n > u {
+		n = u
+	}
+	q = append(q, Op{Kind: wk, Handle: hw, Off: uint64(l), Count: uint32(add), Seed: rapid.Uint64().Draw(t, "grow_seed")})
+	g.lens[fi] = l + n
+	rk := rapid.SampledFrom([]string{"readn", "cread", "readat"}).Draw(t, "grow_rkind")
+	off := rapid.SampledFrom([]int64{l, l + n - 1, l - 1, l + n/2, 0}).Draw(t, "grow_off")
+	off = clamp(off, 0, l+n)
+	cnt := rapid.SampledFrom([]int64{l + n - off, 1, l + n - off + 1, u}).Draw(t, "grow_cnt")
+	if rk == "readn" && g.avoid && cnt > l+n-off {
+		cnt = l + n - off
+		hx.Excluded(FindingReadn)
+	}
+	q = append(q, Op{Kind: rk, Handle: hr, Off: uint64(off), Count: uint32(clamp(cnt, 0, 5*u+8))})
+	g.last = hr
+	g.queue = q
+	return true
+}
+
 func (g *gen) op(t *rapid.T) Op {
+	if len(g.queue) > 0 {
+		o := g.queue[0]
+		g.queue = g.queue[1:]
+		return o
+	}
 	u := g.u
 	w := rapid.IntRange(0, 99).Draw(t, "what")
+	if w >= 40 && w < 47 && len(g.hs) > 0 && g.growThenRead(t) {
+		o := g.queue[0]
+		g.queue = g.queue[1:]
+		return o
+	}
 	switch {
 	case (len(g.hs) == 0 && len(g.lens) == 0) || (w >= 92 && len(g.hs) < maxHandles):
 		if len(g.lens) == 0 || (len(g.lens) < maxFiles && rapid.IntRange(0, 5).Draw(t, "create") == 0) {
@@ -395,6 +468,8 @@ func genCase(t *rapid.T) *Case {
 	// shrinker can delete single operations
 	ops := rapid.SliceOfN(rapid.Custom(func(t *rapid.T) Op { return g.op(t) }), 1, 70).Draw(t, "ops")
 	c.Ops = append(c.Ops, ops...)
+	c.Ops = append(c.Ops, g.queue...) // finish a scenario cut off by the slice length
+	g.queue = nil
 	c.FinalChunk = uint32(clamp(int64(g.countOf(t, 0, 3*g.u)), 1, 3*g.u))
 	return c
 }
@@ -412,6 +487,99 @@ func TestPropMachine(t *testing.T) {
 				t.Fatalf("%v", err)
 			}
 			hx.Failf(t, "machine", c, "%v", err)
+		}
+	})
+}
+
+// ---------------------------------------------------------------- concurrent
+
+var concMsizes = []uint32{128, 256, 1048, 8192, 65536}
+
+func genConc(t *rapid.T) *Case {
+	nm := rapid.SampledFrom(concMsizes).Draw(t, "msize")
+	c := &Case{ClientMsize: nm, ServerMsize: nm, Dotu: rapid.Bool().Draw(t, "dotu"), Conc: &ConcSpec{}}
+	switch rapid.IntRange(0, 2).Draw(t, "decider") {
+	case 0:
+		c.ServerMsize = 65536
+	case 1:
+		c.ClientMsize = 65536
+	}
+	u := int64(nm) - iohdrsz
+	nw := rapid.IntRange(2, 16).Draw(t, "writers")
+	nr := rapid.IntRange(0, 4).Draw(t, "readers")
+	// keep the volume per case bounded (about 2 MB at the largest msize)
+	maxChunk := u + u/2
+	if maxChunk > 6000 {
+		maxChunk = 6000
+	}
+	nchunks := rapid.IntRange(8, 120).Draw(t, "chunks")
+	lens := []int64{1, 13, u - 1, u, u + 1, maxChunk}
+	for i := 0; i < nw; i++ {
+		w := Writer{
+			Helper:   rapid.SampledFrom(writeKinds).Draw(t, "whelper"),
+			Create:   rapid.Bool().Draw(t, "wcreate"),
+			ReadBack: rapid.SampledFrom([]int{0, 0, 1, 3, 7}).Draw(t, "readback"),
+			Seed:     rapid.Uint64().Draw(t, "wseed"),
+		}
+		if !w.Create {
+			w.InitLen = int(clamp(rapid.SampledFrom([]int64{0, 1, u - 1, u, u + 1, 2*u + 1}).Draw(t, "winit"), 0, 20000))
+		}
+		fixed := rapid.SampledFrom(lens).Draw(t, "wlen")
+		vary := rapid.Bool().Draw(t, "wvary")
+		for j := 0; j < nchunks; j++ {
+			ln := fixed
+			if vary {
+				ln = lens[(j+i)%len(lens)]
+			}
+			w.Lens = append(w.Lens, uint32(clamp(ln, 1, maxChunk)))
+		}
+		c.Conc.Writers = append(c.Conc.Writers, w)
+	}
+	for i := 0; i < nr; i++ {
+		c.Conc.Readers = append(c.Conc.Readers, Reader{
+			Len:    int(clamp(rapid.SampledFrom([]int64{0, 1, u, u + 1, 3*u + 1, 5 * u}).Draw(t, "rlen"), 0, 40000)),
+			Seed:   rapid.Uint64().Draw(t, "rseed"),
+			Helper: rapid.SampledFrom(readKinds).Draw(t, "rhelper"),
+			Count:  uint32(clamp(rapid.SampledFrom([]int64{1, u - 1, u, u + 1, 2*u + 1}).Draw(t, "rcount"), 1, 20000)),
+			Rounds: rapid.IntRange(1, 3).Draw(t, "rounds"),
+		})
+		r := &c.Conc.Readers[i]
+		// bound the number of round trips of a reader
+		if lo := uint32(r.Len/200 + 1); r.Count < lo {
+			r.Count = lo
+		}
+	}
+	return c
+}
+
+func sampleConc(c *Case) interface{} {
+	s := *c
+	sp := *c.Conc
+	sp.Writers = append([]Writer(nil), sp.Writers...)
+	for i := range sp.Writers {
+		if len(sp.Writers[i].Lens) > 6 {
+			sp.Writers[i].Lens = sp.Writers[i].Lens[:6]
+		}
+	}
+	s.Conc = &sp
+	s.Desc = fmt.Sprintf("%d writers x %d chunks (lens truncated to 6), %d readers", len(c.Conc.Writers), len(c.Conc.Writers[0].Lens), len(c.Conc.Readers))
+	return s
+}
+
+// TestPropConcurrent: several goroutines share one client; every file has a
+// single writer, so the verdict does not depend on the schedule.
+func TestPropConcurrent(t *testing.T) {
+	hx.Check(t, "concurrent", hx.N(25, 400), func(t *rapid.T) {
+		c := genConc(t)
+		hx.Journal("concurrent", c)
+		hx.ExtraAdd("concurrent_cases", 1)
+		hx.Sample("concurrent", sampleConc(c))
+		if err := RunCase(c); err != nil {
+			if isHarness(err) {
+				hx.Inconclusive(err.Error())
+				t.Fatalf("%v", err)
+			}
+			hx.Failf(t, "concurrent", c, "%v", err)
 		}
 	})
 }
@@ -503,6 +671,60 @@ func TestEnumBoundary(t *testing.T) {
 				}
 				run(c)
 			}
+			// reads through fids that were opened BEFORE the file grew: through
+			// another fid (h0 reads, h1 appends) and through the extending fid
+			// itself; then create -> write -> read back through one ORDWR fid
+			for _, l := range []int64{0, 1, u, u + 1} {
+				for _, add := range []int64{1, u, 2*u + 17} {
+					if !mine() {
+						continue
+					}
+					c := &Case{ClientMsize: nm, ServerMsize: nm, Dotu: dotu, FinalChunk: uint32(u),
+						Files: []FileSpec{{Len: int(l), Seed: uint64(l*131+add) + 5}},
+						Desc:  fmt.Sprintf("enum grow msize=%d dotu=%v len=%d add=%d", nm, dotu, l, add)}
+					c.Ops = append(c.Ops,
+						Op{Kind: "open", File: 0, Mode: oREAD},  // h0, opened at length l
+						Op{Kind: "open", File: 0, Mode: oREAD},  // h1, sequential reader opened at length l
+						Op{Kind: "open", File: 0, Mode: oRDWR},  // h2, the writer
+						Op{Kind: "cread", Handle: 0, Off: uint64(l), Count: uint32(u)}, // EOF for now
+						Op{Kind: "written", Handle: 2, Off: uint64(l), Count: uint32(add), Seed: uint64(add) * 7})
+					nl := l + add
+					for _, kind := range []string{"cread", "readat", "readn"} {
+						for _, hd := range []int{0, 2} {
+							for _, off := range dedupe([]int64{0, l - 1, l, l + 1, nl - 1, nl}) {
+								for _, cnt := range dedupe([]int64{1, u, nl - off, nl - off + 1}) {
+									if kind == "readn" && avoid && off < nl && cnt > nl-off {
+										hx.Excluded(FindingReadn)
+										continue
+									}
+									c.Ops = append(c.Ops, Op{Kind: kind, Handle: hd, Off: uint64(off), Count: uint32(cnt)})
+								}
+							}
+						}
+					}
+					for i := int64(0); i < nl/u+3; i++ {
+						c.Ops = append(c.Ops, Op{Kind: "read", Handle: 1, Count: uint32(u + 1)})
+					}
+					// second growth, written piecewise through h2, read again through the old fids
+					c.Ops = append(c.Ops,
+						Op{Kind: "cwrite", Handle: 2, Off: uint64(nl), Count: 3, Seed: 11},
+						Op{Kind: "writeat", Handle: 2, Off: uint64(nl + 3), Count: uint32(u), Seed: 12},
+						Op{Kind: "readn", Handle: 0, Off: 0, Count: uint32(nl + 3 + u)},
+						Op{Kind: "readn", Handle: 2, Off: uint64(nl), Count: uint32(3 + u)},
+						Op{Kind: "read", Handle: 1, Count: uint32(u)},
+						Op{Kind: "read", Handle: 1, Count: uint32(u)},
+						// created, written and read back through one fid
+						Op{Kind: "create", Mode: oRDWR}, // h3
+						Op{Kind: "written", Handle: 3, Off: 0, Count: uint32(add), Seed: 13},
+						Op{Kind: "readn", Handle: 3, Off: 0, Count: uint32(add)},
+						Op{Kind: "write", Handle: 3, Count: uint32(u), Seed: 14},
+						Op{Kind: "write", Handle: 3, Count: 5, Seed: 15},
+						Op{Kind: "readat", Handle: 3, Off: uint64(u), Count: 5},
+						Op{Kind: "cread", Handle: 3, Off: 0, Count: uint32(u)},
+						Op{Kind: "read", Handle: 3, Count: 1})
+					run(c)
+				}
+			}
 			// writes: one fresh file per (offset, count)
 			for _, l := range []int64{0, 1, u - 1, u, u + 1, 2*u + 1} {
 				for _, kind := range []string{"cwrite", "writeat", "written"} {
@@ -552,5 +774,5 @@ func TestEnumBoundary(t *testing.T) {
 	if fails > 2 {
 		t.Errorf("... and %d more failing enumerated cases", fails-2)
 	}
-	hx.Exhaustive("msize 128 and 129 (thorough: and 256) x both dialects: file lengths {0,1,U-1,U,U+1,2U-1,2U,2U+1,3U+1} x offsets {0,1,U-1,U,U+1,2U,L-1,L,L+1,L-U,L+U} x counts {0,1,U-1,U,U+1,2U+1,3U+2,rem-1,rem,rem+1} for Clnt.Read, File.ReadAt, File.Readn; sequential File.Read to EOF with 10 buffer sizes; Clnt.Write, File.WriteAt, File.Written on fresh files of lengths {0,1,U-1,U,U+1,2U+1} x 9 offsets x 6 counts; all 36 pairs of consecutive File.Write sizes")
+	hx.Exhaustive("msize 128 and 129 (thorough: and 256) x both dialects: file lengths {0,1,U-1,U,U+1,2U-1,2U,2U+1,3U+1} x offsets {0,1,U-1,U,U+1,2U,L-1,L,L+1,L-U,L+U} x counts {0,1,U-1,U,U+1,2U+1,3U+2,rem-1,rem,rem+1} for Clnt.Read, File.ReadAt, File.Readn; sequential File.Read to EOF with 10 buffer sizes; Clnt.Write, File.WriteAt, File.Written on fresh files of lengths {0,1,U-1,U,U+1,2U+1} x 9 offsets x 6 counts; all 36 pairs of consecutive File.Write sizes; grow scenarios: lengths {0,1,U,U+1} x growth {1,U,2U+17}: reads by all helpers at offsets around the old and the new end through a fid opened before another fid extended the file, through the extending fid, and create->write->read-back through one ORDWR fid")
 }
